@@ -67,9 +67,9 @@
 // -DVERIF_TRACK=... -DVERIF_EOL=... -DVERIF_EOL_KIND=n -DPOS_LAZY=0|1 come from the registry
 #define VERIF_K 3
 #if POS_LAZY
-#define VERIF_GROUPS ( T::G_CORE | T::G_CONV | T::G_ATOM2 | T::G_POS )
+#define VERIF_GROUPS ( T::G_CORE | T::G_CONV | T::G_ATOM2 | T::G_POS | T::G_PRED | T::G_REMATCH )
 #else
-#define VERIF_GROUPS ( T::G_CORE | T::G_CONV | T::G_ATOM2 | T::G_POS | T::G_BOL )
+#define VERIF_GROUPS ( T::G_CORE | T::G_CONV | T::G_ATOM2 | T::G_POS | T::G_PRED | T::G_REMATCH | T::G_BOL )
 #endif
 #define VERIF_FAMS ( 1 | 2 )
 #define VERIF_CTLS 1
@@ -426,8 +426,8 @@ struct Space
 #endif
          Phase p;
          p.name = "positions_closed_n3";
-         p.root = { "SEQ", "SOR", "STAR", "OPT", "AT", "NOT_AT", "UNTIL1", "UNTIL2", "PLUS" };
-         p.inner = { "ANY", "ONE_LF", "ONE_CR", "NOT_ONE_A", "NOT_ONE_LF", "SEVEN", "STRING_CRLF", "EOL", "EOLF", "BYTES2", "EVERYTHING", "UTF8_ANY", "BOF", POS_BOL "EOF_", "SEQ", "SOR", "STAR", "OPT", "AT", "NOT_AT", "UNTIL1", "UNTIL2" };
+         p.root = { "SEQ", "SOR", "STAR", "OPT", "AT", "NOT_AT", "UNTIL1", "UNTIL2", "PLUS", "REMATCH", "REMATCH3", "MINUS" };
+         p.inner = { "ANY", "ONE_LF", "ONE_CR", "NOT_ONE_A", "NOT_ONE_LF", "SEVEN", "STRING_CRLF", "EOL", "EOLF", "BYTES2", "EVERYTHING", "UTF8_ANY", "PRED_NOT", "PRED_AND", "BOF", POS_BOL "EOF_", "SEQ", "SOR", "STAR", "OPT", "AT", "NOT_AT", "UNTIL1", "UNTIL2", "REMATCH" };
          p.N = 3;
          p.L = thorough ? 4 : 3;
          p.sigma = std::string( "a\n\r\xC3\xA9" );
